@@ -35,7 +35,7 @@ func init() {
 	// ------------------------------------------------------------------ C01
 	register(&Prop{
 		ID: "C01", Level: "exploration", QuickS: 20, ThoroughS: 300,
-		Rule:       "seeded authentication attempts against ClearTextPassword(validator) and a custom failing strategy: validator outcome drawn per case (accept / reject / fail with either verdict flag), the client sends in place of the password message a correct, wrong or empty password, a password message without NUL / with surplus bytes / with declared length 0-3, > limit or 2^32-1, another message type, garbage, or nothing; then a generated tail of queries, extended messages, Terminate and raw bytes, pipelined in the same segment or sent after the server's reply; segmentation and a failing write are drawn per case; a share of cases lets 2-3 connections log in to one account at the same time under seeded schedules (one with the right password); a share of cases authenticates inside an upgraded (TLS) connection, with and without an unverified client certificate, judged against the plaintext equivalent; in a quarter of the cases an earlier connection first logs in successfully with related credentials (the same triple, whose password the validator rejects from the second time on, or a triple that reads the same when its parts are joined with a separator), some accounts have an empty password, some servers were given an accept-all strategy before the configured one (last option wins), a failing write is permanent or transient (exactly one write fails); non-trivial = the connection was not accepted and the client sent at least one message after its credentials; distinct = distinct case content hashes",
+		Rule:       "seeded authentication attempts against ClearTextPassword(validator) and a custom failing strategy: validator outcome drawn per case (accept / reject / fail with either verdict flag), the client sends in place of the password message a correct, wrong or empty password, a password message without NUL / with surplus bytes / with declared length 0-3, > limit or 2^32-1, another message type, garbage, or nothing; then a generated tail of queries, extended messages, Terminate and raw bytes, pipelined in the same segment or sent after the server's reply; segmentation and a failing write are drawn per case; a share of cases lets 2-3 connections log in to one account at the same time under seeded schedules (one with the right password); a share of cases authenticates inside an upgraded (TLS) connection, with and without an unverified client certificate, judged against the plaintext equivalent; in a quarter of the cases an earlier connection first logs in successfully with related credentials (the same triple, whose password the validator rejects from the second time on, or a triple that reads the same when its parts are joined with a separator), some accounts have an empty password, some servers were given an accept-all strategy before the configured one (last option wins), a failing write is permanent or transient (exactly one write fails); validators that panic (the injected panic crosses the library and is caught at the top of the connection goroutine: the process may die, the connection never gets in); non-trivial = the connection was not accepted and the client sent at least one message after its credentials; distinct = distinct case content hashes",
 		Components: e1Components, Assumptions: commonAssumptions,
 		Gen: func(r *Rand, tier string) *Case {
 			if r.Chance(1, 15) {
@@ -100,6 +100,11 @@ func init() {
 			}
 			user, db, pw := r.Ident(4), r.Ident(3), "secret"+r.Ident(2)
 			out := r.Pick("accept", "reject", "reject", "fail", "failtrue")
+			if r.Chance(1, 12) {
+				// a faulty validator that panics for these credentials: the panic may
+				// take the process down, it never lets the connection in
+				out = "panic"
+			}
 			c.Server.Validator = []AuthEntry{{DB: db, User: user, PW: pw, Out: out}}
 			c.Server.DefaultAuth = r.Pick("reject", "reject", "fail")
 			var cred pgwire.FMsg
@@ -368,7 +373,7 @@ func init() {
 	// ------------------------------------------------------------------ C02
 	register(&Prop{
 		ID: "C02", Level: "exploration", QuickS: 25, ThoroughS: 420,
-		Rule:       "seeded sessions from the widest handler-program generator (0-4 columns with arbitrary NUL-free names, every covered OID, rows that are fine / wrong arity / unencodable at column j so that a frame is abandoned half-built, command tags, errors decorated with every combination and order of code/severity/hint/detail/source/constraint and %w wrapping, COPY responses, startup with and without authentication, oversized and unknown client messages, simple and extended protocol) with a failing, transiently failing or slow (the peer stalls inside the write for 0.1 s - 1 h of simulated time, then resumes) k-th write in a third of the runs, optionally one or two SSLRequests ahead of the startup packet; the accepted output must parse under the strict backend grammar with zero bytes left over; the same rule runs as a monitor in every other property's runs; non-trivial = the run produced at least one ErrorResponse, DataRow or rejected row; distinct = distinct case content hashes",
+		Rule:       "seeded sessions from the widest handler-program generator (0-4 columns with arbitrary NUL-free names, every covered OID, rows that are fine / wrong arity / unencodable at column j so that a frame is abandoned half-built, command tags, errors decorated with every combination and order of code/severity/hint/detail/source/constraint and %w wrapping, COPY responses, startup with and without authentication, oversized and unknown client messages, simple and extended protocol) with a failing, transiently failing or slow (the peer stalls inside the write for 0.1 s - 1 h of simulated time, then resumes) k-th write in a third of the runs, optionally one or two SSLRequests ahead of the startup packet; the accepted output must parse under the strict backend grammar with zero bytes left over; the same rule runs as a monitor in every other property's runs; transient write failures deliver a prefix of the failing write (optionally reporting Timeout()): nothing may be written behind a torn message; non-trivial = the run produced at least one ErrorResponse, DataRow or rejected row; distinct = distinct case content hashes",
 		Components: e1Components, Assumptions: commonAssumptions,
 		Gen: func(r *Rand, tier string) *Case {
 			c := &Case{Server: ServerCfg{Limit: smallLimit(r)}}
@@ -395,6 +400,7 @@ func init() {
 			if r.Chance(1, 3) {
 				kind := r.Pick("write-err", "write-err-transient", "write-err-transient", "write-slow")
 				c.Conns[0].Faults = []Fault{{Kind: kind, At: r.Range(0, 25), Bytes: r.PickInt(0, 1, 4, 5, 6, 1000)}}
+				c.Conns[0].Faults[0].Timeout = kind == "write-err-transient" && r.Bool()
 				if kind == "write-slow" {
 					// the peer stops reading in the middle of that write for a while
 					// and then resumes (simulated time passes inside the write)
